@@ -102,6 +102,19 @@ def work(tier, seed):
                     cfg = to_cfg(base, pc, seed)
                     cfg["groups"] = [{"params": [0, 2], "over": {}}, {"params": [1], "over": over}]
                     units.append({"cfg": cfg, "backend": backend, "mode": False})
+    # float64 parameters with a learning rate that is not representable in float32, and bfloat16 parameters
+    for pi, pc in enumerate(PCS):
+        for backend in ("eager", "aot_eager"):
+            for pd, lr in (("f64", 0.01), ("bf16", 0.25), ("f64", 0.3)):
+                if tier == "quick" and (pi + (backend == "eager") + (pd == "bf16")) % 2:
+                    continue
+                cfg = to_cfg(BASE[1], pc, seed)
+                cfg.update(pdtype=pd, prec_dtype="f64" if pd == "f64" else "f32", lr=lr)
+                units.append({"cfg": cfg, "backend": backend, "mode": False})
+    # a group step that raises (failed root computations beyond the tolerance): the state left behind must agree as well
+    for backend in ("eager", "aot_eager"):
+        cfg = to_cfg(BASE[2], ["shampoo", {"solver": "higher", "iters": 1, "stol": 0.0, "tol": 0}], seed)
+        units.append({"cfg": cfg, "backend": backend, "mode": False, "expect_raise": True})
     return units
 
 
@@ -137,13 +150,23 @@ def check(cfg, backend, mode, hist):
         seq.set_grads(params, cfg, t, mask)
         for a, b in zip(params, tparams):
             b.grad = None if a.grad is None else a.grad.clone()
+        exc_c = exc_e = None
         try:
             opt.step()
         except Exception as e:
-            return [f"step {t} mask {mask}: compiled step raised {type(e).__name__}: {str(e)[:200]}"], digests, 0
-        twin.step()
+            exc_c = e
+        try:
+            twin.step()
+        except Exception as e:
+            exc_e = e
+        if (exc_c is None) != (exc_e is None) or (exc_c is not None and type(exc_c) is not type(exc_e)):
+            return [f"step {t} mask {mask}: compiled step raised {type(exc_c).__name__ if exc_c else None}, eager step raised {type(exc_e).__name__ if exc_e else None}: {str(exc_c or exc_e)[:160]}"], digests, 0
         for i, (a, b) in enumerate(zip(params, tparams)):
             pairs = [((f"param{i}",), a.detach(), b.detach())]
+            if (a.grad is None) != (b.grad is None):
+                msgs.append(f"step {t} mask {mask}: .grad of parameter {i} is {'None' if a.grad is None else 'set'} after the compiled step but {'None' if b.grad is None else 'set'} after the eager step")
+            elif a.grad is not None:
+                pairs.append(((f"grad{i}",), a.grad.detach(), b.grad.detach()))  # what the step leaves in .grad (e.g. the L2 term) must agree too
             sa, sb = dict(tree_tensors(opt.state[a])), dict(tree_tensors(twin.state[b]))
             if sa.keys() != sb.keys():
                 msgs.append(f"step {t} mask {mask}: state structure of parameter {i} differs between compiled and eager")
@@ -160,7 +183,7 @@ def check(cfg, backend, mode, hist):
                     msgs.append(f"step {t} mask {mask}: {'/'.join(map(str, k))} of parameter {i} differs between compiled ({backend}, dynamic={mode}) and eager optimizer (max diff {d:.3e})")
                     break
         digests.append(seq.visible_digest(opt, params))
-        if msgs:
+        if msgs or exc_c is not None:
             break
     c = torch._dynamo.utils.counters
     frames = int(c["frames"]["ok"]) if "frames" in c else 0
